@@ -30,6 +30,17 @@ CoordOK(p, v) ==
   \/ LE(U64MAX, N(p)) /\ v \in {U64MAX, Pred(U64MAX)}        \* clamped
 Byte255(v) == LE(v, <<2, 5, 5>>)
 
+\* kitty keyboard modifiers parameter m = 1 + bit set (nine defined bits).  Absent, 0 and 1 mean no modifiers; a value whose
+\* bit set does not fit 32 bits may only be clamped (every modifier) - or the report is not decoded as a key at all
+RECURSIVE DVal(_)
+DVal(ds) == IF ds = <<>> THEN 0 ELSE DVal(SubSeq(ds, 1, Len(ds) - 1)) * 10 + ds[Len(ds)]
+ModBits(m) ==
+  LET c == Canon(N(m)) IN
+  IF Len(m) = 0 \/ c = <<0>> \/ c = <<1>> THEN {<<0>>}
+  ELSE IF Len(c) <= 6 THEN {NatDigits((DVal(c) - 1) % 512)}
+  ELSE IF c = <<2,1,4,7,4,8,3,6,4,8>> \/ c = <<4,2,9,4,9,6,7,2,9,6>> THEN {<<5,1,1>>}
+  ELSE IF c = U32MAX THEN {<<5,1,0>>}
+  ELSE {<<5,1,1>>}
 \* family rule on the single event e of a fully recognised vector
 FamOK(fam, ps, e) ==
   LET n == [i \in 1..Len(e.n) |-> N(e.n[i])] IN
@@ -40,7 +51,7 @@ FamOK(fam, ps, e) ==
     [] fam = "osc4" /\ e.f = "osc4"     -> Exact(ps[1], n[1])
     [] fam = "size" /\ e.f = "size"     -> \A i \in 1..4 : Exact(ps[i], n[i])
     [] fam = "da1" /\ e.f = "da1"       -> \A i \in 1..Len(n) : \E j \in 1..Len(ps) : Exact(ps[j], n[i])
-    [] fam = "kittykey" /\ e.f = "key"  -> Len(ps[1]) = 0 \/ n[1] = Canon(N(ps[1]))
+    [] fam = "kittykey" /\ e.f = "key"  -> (Len(ps[1]) = 0 \/ n[1] = Canon(N(ps[1]))) /\ (Len(n) < 2 \/ n[2] \in ModBits(ps[2]))
     [] fam = "sgr5" /\ e.f = "sgr"      -> n = <<>> \/ Byte255(N(ps[1]))
     [] fam = "sgr2" /\ e.f = "sgr"      -> n = <<>> \/ (\A i \in 1..3 : n[i] = Canon(N(ps[i])) /\ Byte255(n[i]))
     [] OTHER -> TRUE
